@@ -167,7 +167,7 @@ func execPredicate(context *exprContext, expr *grammar.Grammar) error {
 		}
 
 		if n, ok := left.(Number); ok {
-			if (i + 1) == int(n) {
+			if Number(i+1) == n {
 				nextResult = append(nextResult, nodeSet[i])
 			}
 		} else if b, ok := left.(Bool); ok {
